@@ -58,7 +58,7 @@ Definition finish (p : pst) : pst :=
   | TNum n => match push (A n) (stk p) with
               | Some s => {| stk := s; tok := TNone; bad := bad p |}
               | None => {| stk := []; tok := TNone; bad := true |} end
-  | TBytes r None => match push (B (rev r)) (stk p) with
+  | TBytes r None => match push (B (rev' r)) (stk p) with
               | Some s => {| stk := s; tok := TNone; bad := bad p |}
               | None => {| stk := []; tok := TNone; bad := true |} end
   | TBytes _ (Some _) => {| stk := stk p; tok := TNone; bad := true |}
@@ -69,7 +69,7 @@ Definition pstep (p : pst) (c : N) : pst :=
   else if c =? 41 then
     let q := finish p in
     match stk q with
-    | top :: r => match push (L (rev top)) r with
+    | top :: r => match push (L (rev' top)) r with
                   | Some s => {| stk := s; tok := TNone; bad := bad q |}
                   | None => {| stk := []; tok := TNone; bad := true |}
                   end
